@@ -173,6 +173,20 @@ def rules(P, R, prefix="C02"):
                 R.judge(ok, prefix + ".R2", key(cf, "walk: a0 = head, a(i+1) = get_parent_block(a(i))" + tag), walk["sp"], why,
                         "the ancestor walk does not follow parent links from the head block: %s" % why)
 
+            # ---- R2c: the walk only stops at an ancestor that is already committed (or when its loop condition fails):
+            # any other exit (a size bound, a time budget ..) leaves older uncommitted ancestors behind while the watermark
+            # moves past them
+            if walk is not None:
+                from ..common import inner_cond
+                anc_terms = [ctx.term(val) for (n_, val, cls) in pushes if cls == "anc"]
+                exits = [x for x in ir.walk(walk["body"], into_closures=False) if x["k"] in ("break", "ret")]
+                for x, i in ordinal_keys(exits, lambda y: y["k"]):
+                    ic = inner_cond(flow, x, walk["body"])
+                    okx = any(implies(ic, cmp_formula("<=", at_ + ".round", "self.last_committed_round"))[0] for at_ in anc_terms)
+                    R.judge(okx, prefix + ".R2", key(cf, "ancestor walk stops only at an already committed ancestor" + tag, i), x["sp"], show(ic),
+                            "the ancestor walk can stop under `%s`, which does not say that the ancestor just fetched is already committed: "
+                            "older uncommitted ancestors are then never delivered" % show(ic))
+
             # ---- R2b: symbolic evaluation of the queue
             bad = []
             shown = None
